@@ -36,7 +36,7 @@ class LoopMixin:
         from .symex import EngineError
         if fr.finfo is None:
             raise EngineError("loop in a specification function")
-        c = self.contracts.get(fr.finfo.qualname)
+        c = getattr(fr, "contract", None) or self.contracts.get(fr.finfo.qualname)
         o = self.loop_ordinal(fr, node)
         if c is None or o not in c.loops:
             raise EngineError(f"loop {o} of {fr.finfo.qualname} has no invariant")
@@ -317,13 +317,18 @@ class LoopMixin:
         return names
 
     def dry_run_writes(self, node, st, fr, head, step, assigned, cursor_key, bind_cursor):
-        """Heap components the body may write: run the body once from a fully havocked heap."""
+        """Heap components the body may write: run the body once from a fully havocked heap.
+        Returns {key: "whole" | [loop-invariant location terms]}.  A written location is loop-invariant when
+        its index term depends only on pre-loop symbols and on components the loop does not write."""
         from .state import counter_value
         s = st.copy()
         c0 = counter_value()
+        hv_map = {}
         for key in list(s.heap.comps):
             if key[0] != "cls":
+                pre = s.heap.get(key)
                 s.heap.havoc(key)
+                hv_map[s.heap.comps[key].get_id()] = (key, pre, s.heap.comps[key])
         for name in assigned:
             if name in s.env:
                 s.env[name] = self.havoc_value(s, s.env[name], name)
@@ -338,10 +343,15 @@ class LoopMixin:
                 outs = self.ex(node.body, s, fr, lambda s3: [(s3, "iterend", None)])
         finally:
             self.dry -= 1
-        written = {}
+        W = set()
+        for (s2, kind, p) in outs:
+            for key in s2.heap.changed_keys(base):
+                if key[0] != "cls":
+                    W.add(key)
 
-        def is_stable(t):
-            # no symbol created during the dry run occurs in the index term
+        def stable_term(t):
+            """t with dry-run havoc symbols of unwritten components replaced by their pre-loop terms, or None"""
+            subs = []
             todo, seen = [t], set()
             while todo:
                 x = todo.pop()
@@ -352,13 +362,18 @@ class LoopMixin:
                     nm = x.decl().name()
                     if "!" in nm:
                         try:
-                            if int(nm.rsplit("!", 1)[1]) > c0:
-                                return False
+                            fresh_in_dry = int(nm.rsplit("!", 1)[1]) > c0
                         except ValueError:
-                            pass
+                            fresh_in_dry = False
+                        if fresh_in_dry:
+                            ent = hv_map.get(x.get_id())
+                            if ent is None or ent[0] in W:
+                                return None
+                            subs.append((ent[2], ent[1]))
                 todo.extend(x.children())
-            return True
+            return z3.substitute(t, *subs) if subs else t
 
+        written = {}
         for (s2, kind, p) in outs:
             for key in s2.heap.changed_keys(base):
                 if key[0] == "cls":
@@ -373,8 +388,9 @@ class LoopMixin:
                 while ok and not t.eq(b):
                     if z3.is_store(t):
                         ix = t.arg(1)
-                        if is_stable(ix):
-                            locs.append(ix)
+                        stb = stable_term(ix)
+                        if stb is not None:
+                            locs.append(stb)
                         elif self.feasible(s2, ix < a_dry):
                             ok = False
                         t = t.arg(0)
